@@ -5,7 +5,7 @@ import random
 from harness import core, inputs, xdoc
 
 GEN = ['gen_tables', 'gen_regex', 'gen_config', 'gen_escapes']
-THEOREMS = ['C13_entries_start_at_their_line', 'C13_line_numbers_increase', 'C13_quote_aligned', 'C13_item_aligned', 'C13_fragment_line_numbers', 'C13_fragment_sibling_offset']
+THEOREMS = ['C13_entries_start_at_their_line', 'C13_line_numbers_increase', 'C13_quote_aligned', 'C13_item_aligned', 'C13_fragment_line_numbers', 'C13_fragment_sibling_offset', 'C13_outline_line_numbers', 'C13_outline_one_line_per_node']
 TRUSTED = ['the parser model (Model/Block.v ...) tied by X-doc, which compares the line number of every block token',
            'the line-recording document generator (oracle side): it writes each block itself and records the line it wrote it on']
 ASSUMPTIONS = ['PARTIAL: the theorems cover the dispatch loop (entries start at their recorded line, strictly increasing) and the alignment of the '
